@@ -3,6 +3,8 @@ package verifharness
 import (
 	"bytes"
 	"fmt"
+	"github.com/mimecast/dtail/internal/regex"
+	gossh "golang.org/x/crypto/ssh"
 	"regexp"
 	"strings"
 	"testing"
@@ -27,8 +29,13 @@ type C12Scenario struct {
 	Quiet     bool   `json:"quiet"`
 	// NFiles > 1 (non-plain mode only): the same corpus under several names, given
 	// as a comma-separated list; each file's lines are attributed by source id
-	NFiles int                 `json:"nfiles,omitempty"`
-	Net    verifsimnet.Profile `json:"net"`
+	NFiles int `json:"nfiles,omitempty"`
+	// RivalMs > 0 (SSH, one file): another user's session on the same server
+	// asks for the SAME pattern with the OPPOSITE invert flag that many
+	// milliseconds after the client started, while the client's read (slowed to
+	// 5 ms per line) is still going on
+	RivalMs int                 `json:"rival_ms,omitempty"`
+	Net     verifsimnet.Profile `json:"net"`
 }
 
 // The corpus: 40 lines designed so that different patterns select different
@@ -89,6 +96,9 @@ func c12Gen(r *Rand, tier string, i int) Scenario {
 	if !sc.Plain && r.Bool(0.35) {
 		sc.NFiles = PickOf(r, 2, 2, 3)
 	}
+	if sc.Transport == "ssh" && sc.NFiles <= 1 && r.Bool(0.15) {
+		sc.RivalMs = PickOf(r, 20, 60, 110, 160)
+	}
 	if sc.Transport == "ssh" {
 		sc.Net = genNetProfile(r)
 		if r.Bool(0.2) {
@@ -141,6 +151,9 @@ func c12Run(t *testing.T, s Scenario, src verifsim.DecisionSource, keep bool) *R
 		np := sc.Net
 		opts.Net = &np
 	}
+	if sc.RivalMs > 0 {
+		opts.Stalls = append(opts.Stalls, stallRules([]StallSpec{{Name: "reader.perline", Site: "io/fs/readfilelcontext.go", Suffix: "/ranged", From: 0, To: -1, DurMs: 5}})...)
+	}
 	res.Outcome = RunSim(t, opts, func(w *World) {
 		w.WriteFile("corpus.log", []byte(strings.Join(c12Corpus, "\n")+"\n"))
 		files := []string{"corpus.log"}
@@ -156,6 +169,29 @@ func c12Run(t *testing.T, s Scenario, src verifsim.DecisionSource, keep bool) *R
 			keyPath = w.StartSSHWorld(spec.Hosts, ServerCfg{}, nil)
 		}
 		proc = w.MakeReadClient(spec, keyPath)
+		if sc.RivalMs > 0 {
+			flag := regex.Invert
+			if sc.Invert {
+				flag = regex.Default
+			}
+			if rre, err := regex.New(sc.Regex, flag); err == nil {
+				if ser, err := rre.Serialize(); err == nil {
+					cmd := fmt.Sprintf("grep: %s %s", w.Data("corpus.log"), ser)
+					w.Sim.GoOn(w.Sim.NewNode("rival", "client", "rivalhost"), "harness/rival", func() {
+						w.Sleep(time.Duration(sc.RivalMs) * time.Millisecond)
+						rs := w.RawDial("rival", "srv1", simUser, []gossh.AuthMethod{gossh.PublicKeys(Key(0).Signer)}, 5*time.Second)
+						if rs.DialErr != nil {
+							return
+						}
+						if rs.Shell() == nil {
+							rs.Command(cmd)
+							w.Sleep(2 * time.Second)
+						}
+						rs.Close()
+					})
+				}
+			}
+		}
 		w.RunClient(proc, sc.Transport == "ssh")
 		stdout = w.Stdout(proc.StdoutCut)
 	})
